@@ -104,9 +104,17 @@ def conforms (shape : Shape) (ss : List SOp) (fin : Fin) (cs : List COp) : Bool 
   | .cstream => singleResponseC ss fin
   | .bidi => true
 
+/-- `Invoke`: the one `RecvMsg(reply)` of a unary call returns with the call finished — grpc-go's client reads on to
+the status for a method without server streaming, and in the wrapper the handler FUNCTION has returned before the
+goroutine of `Invoke` sends its response — so the grpc.Trailer call option, collected right after it, is read after
+the end of the call: `Trailer()` is defined there although no second `RecvMsg` has returned the status. -/
+def Shape.statusRead : Shape → Bool
+  | .unary => true
+  | _ => false
+
 /-- The hypothesis of C13 for one scripted call. -/
 def WFScripts (shape : Shape) (ss : List SOp) (fin : Fin) (cs : List COp) : Bool :=
-  conforms shape ss fin cs && sync false false false (.running ss) (clientOps shape cs)
+  conforms shape ss fin cs && sync shape.statusRead false false (.running ss) (clientOps shape cs)
 
 /-- A run is complete: it never left the rendezvous discipline and no handler is left blocked. -/
 def Transcript.complete (t : Transcript) : Bool :=
